@@ -1,6 +1,7 @@
 package worker
 
 import (
+	"net/url"
 	"fmt"
 	"math"
 	"reflect"
@@ -54,6 +55,9 @@ type Embedder struct {
 type Level int
 
 func (l Level) String() string { return "level-" + strconv.Itoa(int(l)) }
+
+// Next is a method of a defined integer type.
+func (l Level) Next(by int) Level { return l + Level(by) }
 
 // Defined types over the basic kinds.
 type (
@@ -263,6 +267,18 @@ func Build(v sb.V) interface{} {
 		return Level(int(v.N))
 	case "embednil":
 		return Page{Title: v.S}
+	case "funcmap":
+		// functions held in a hash, as an application puts helpers in the context
+		return map[string]stick.Value{
+			"url":  func(s string) string { return "u:" + s },
+			"zero": func() int { return 7 },
+			"n":    3,
+		}
+	case "values":
+		// a named map type with methods (url.Values)
+		return url.Values{"a": {"1", "2"}, "b": {"x"}}
+	case "level":
+		return Level(int(v.N))
 	case "cyclicmap":
 		mp := map[string]stick.Value{"title": "t"}
 		mp["self"] = mp
